@@ -224,6 +224,39 @@ def corpus_witness(ctx):
                               {"corpus": "corpus/%s.json" % name, "diffs": diffs[:10]})
 
 
+def qe_tr_family(ctx):
+    """Fixed family (own PRNG, independent of VERIF_SEED): heating loops with heat + return-temperature consumers,
+    every junction started hot (345 K, above every return set-point) and cold (300 K, below every set-point); the
+    converged bidirectional results must agree."""
+    import random
+    kw = dict(mode="bidirectional", tol_T=1e-7, use_numba=False, **TIGHT)
+    for i in range(6):
+        r = random.Random(9000 + i)
+        spec = gen.gen_net(r, "heat", size=1 + i % 3, features={"hc_mode": "QE_TR", "mass_pump": False},
+                           label_mode=["contig", "shuffled", "sparse"][i % 3])
+        runs = {}
+        for name, t in (("hot", 345.0), ("cold", 300.0)):
+            vs = copy.deepcopy(spec)
+            for fn, k in vs["ops"]:
+                if fn == "create_junction":
+                    k["tfluid_k"] = t
+            runs[name] = (vs,) + run_variant(vs, **kw)
+        (sh, sth, rh), (sc, stc, rc) = runs["hot"], runs["cold"]
+        both = sth == stc == "ok"
+        ctx.case({"family": "qe_tr", "i": i, "status": [sth, stc]}, both, key="qe_tr:%d" % i)
+        ctx.count("qe_tr_family_%s_%s" % (sth, stc))
+        if both:
+            diffs = compare(rh, rc, atol=1e-5, rtol=1e-9)
+            if diffs:
+                ctx.violation({"clause": "start_value_or_damping_independence", "variant": "start", "profile": "qe_tr_family",
+                               "mode": "bidirectional",
+                               "where": refine_where(stagnant_classes(spec, rh, rc, diffs), sc, diffs)},
+                              "two converged runs of the same physical network disagree (all junctions started at 345 K vs "
+                              "300 K): %s %s (first of %d)" % (diffs[0][0], diffs[0][1], len(diffs)),
+                              {"spec": sh, "variant_spec": sc, "base_options": kw, "variant_options": kw,
+                               "diffs": diffs[:10]})
+
+
 def run(ctx):
     ctx.extra["rule"] = ("generated water / gas / heat networks (tools/harness/gen.py); each is re-run with 3 random "
                          "start-value assignments (pn_bar x U(0.4,2.5) per junction in hydraulics; tfluid_k x U(0.9,1.1) "
@@ -244,6 +277,7 @@ def run(ctx):
     n_nets = len(plan)
     nconv = 0
     corpus_witness(ctx)
+    qe_tr_family(ctx)
     for k in range(n_nets):
         profile = plan[k]
         if profile.startswith("lowflow"):
